@@ -1,3 +1,42 @@
-(* C18, HLL part -- statements only (being built). *)
-From DS Require Import Base.Prelude Model.Hll Model.HllCodec.
+(* C18, HLL part -- an HLL image has exactly the size its mode and lg_k dictate.
+   Statements only; proofs in Proofs/HllCodecProofs.v.
+   [hll_serialize] (Model/HllCodec.v) mirrors HllSketch::serialize byte by byte; [SrcOK] is the
+   well-formedness of C03 (what HllSketch::new + updates, unions and the reader produce). *)
+From DS Require Import Base.Prelude Model.Hll Model.HllCodec Proofs.HllBase Proofs.HllArray4 Proofs.HllRefine
+  Proofs.HllUnionProofs Proofs.HllCodecProofs.
 Open Scope N_scope.
+
+(* any well-formed sketch (built, merged or deserialized): 8 + 4c | 12 + 4c | 40 + k/2 + 4 aux |
+   40 + 3k/4 + 1 | 40 + k bytes *)
+Theorem c18_hll_image_size :
+  forall lgk arrf cs s, SrcOK lgk arrf cs s -> N.of_nat (length (hll_serialize s)) = hll_image_size s.
+Proof. exact image_size. Qed.
+
+(* for EVERY stream: the size is the property's formula, with c = number of distinct coupons <= 7 in
+   list mode, 4c <= 3 * 2^(lg_k - 3) in set mode, and in Hll4 array mode as many exceptions as there
+   are registers >= cur_min + 15 (at most k): bounded by the configuration, not by the stream *)
+Theorem c18_hll_image_size_of_stream :
+  forall lgk t cs, 4 <= lgk <= 21 -> Forall valid cs ->
+  exists s, run_stream hip_new hip_update hip_carry lgk t cs = Ok s /\
+    let n := N.of_nat (length (hll_serialize s)) in
+    let k := 2 ^ lgk in
+    match sk_mode s with
+    | MList l _ => n = 8 + 4 * distinct cs /\ distinct cs <= 7
+    | MSet st _ => n = 12 + 4 * distinct cs /\ 4 * distinct cs <= 3 * 2 ^ (lgk - 3)
+    | MArr4 a => exists aux, n = 40 + k / 2 + 4 * aux /\ aux <= k /\
+                             aux = count_regs k (fun j => a4_cur_min a + 15 <=? spec_regs lgk cs j)
+    | MArr6 _ => n = 40 + 3 * k / 4 + 1
+    | MArr8 _ => n = 40 + k
+    end.
+Proof. exact hll_image_size_of_stream. Qed.
+
+(* the number of exceptions is determined by the register file *)
+Theorem c18_hll_aux_count :
+  forall lgk regs (a : arr4 hip), Inv4 lgk regs a ->
+  N.of_nat (length (match a4_aux a with Some m => aux_pairs m | None => [] end))
+  = count_regs (2 ^ lgk) (fun j => a4_cur_min a + 15 <=? regs j).
+Proof. exact aux_pairs_count. Qed.
+
+(* non-vacuity: the streams of C02's examples are valid *)
+Example c18_hll_example : Forall valid Proofs.HllC02.ex_stream /\ Forall valid Proofs.HllC02.ex_stream2.
+Proof. exact Proofs.HllC02.ex_stream_valid. Qed.
